@@ -86,6 +86,7 @@ class NarwhalsMaterializer(FormulaMaterializer):
         spec: ModelSpec,
         drop_rows: Sequence[int],
     ) -> Any:
+        values = self._as_numerical_column(values)
         if drop_rows:
             values = drop_nulls(values, indices=drop_rows)
         if spec.output == "sparse":
@@ -93,7 +94,7 @@ class NarwhalsMaterializer(FormulaMaterializer):
             if array.dtype == numpy.float16:
                 # scipy.sparse has no half-precision support
                 array = array.astype(numpy.float32)
-            return spsparse.csc_matrix(array.reshape((values.shape[0], 1)))
+            return spsparse.csc_matrix(array.reshape((array.shape[0], 1)))
         return values
 
     @override
